@@ -16,17 +16,24 @@ import json, os, collections
 import vlib
 
 
-EXT = ('StartPublish', 'StartNext', 'StartClose')
+EXT = ('StartPublish', 'StartNext', 'StartClose', 'StartHandle', 'CancelHandle')
 
 
-def obs_of(st, subs):
-    incall = sorted((['pub'] if st['ppc'] in ('wantMu', 'sending') else []) + [s for s in subs if st['spc'][s] == 'next'])
-    inclose = sorted([s for s in subs if st['cpc'][s] == 'wantMu'])
-    return json.dumps({'inCall': incall, 'inClose': inclose, 'lastRet': {s: st['lastRet'][s] for s in subs},
+def obs_of(st, subs, handlers=()):
+    hst = st.get('hst') or {}
+    if not isinstance(hst, dict):
+        hst = {}
+    incall = sorted((['pub'] if st['ppc'] in ('wantMu', 'sending') else [])
+                    + [s for s in subs if s not in handlers and st['spc'][s] == 'next']
+                    + [s for s in handlers if hst.get(s) in ('wantSub', 'running', 'closing')])
+    inclose = sorted([s for s in subs if s not in handlers and st['cpc'][s] == 'wantMu'])
+    # a handler's result is known when Handle has returned; until then the driver reports "none"
+    lastret = {s: (st['lastRet'][s] if s not in handlers else (st['lastRet'][s] if hst.get(s) == 'returned' else 'none')) for s in subs}
+    return json.dumps({'inCall': incall, 'inClose': inclose, 'lastRet': lastret,
                        'got': {s: st['got'][s] for s in subs}}, sort_keys=True)
 
 
-def topic_conformance(c, cfg, subs, buffered):
+def topic_conformance(c, cfg, subs, buffered, handlers=()):
     r = vlib.tlc('Topic', cfg, workers=1, timeout=600, dump=True, keep=True)
     if not r.ok:
         vlib.cleanup(r)
@@ -56,8 +63,12 @@ def topic_conformance(c, cfg, subs, buffered):
     def label_act(l):
         if l.startswith('StartPublish'):
             return {'a': 'publish', 's': ''}
-        s = l[l.index('(') + 1:l.index(')')].strip('"')
-        return {'a': 'next' if l.startswith('StartNext') else 'close', 's': s}
+        args = [x.strip().strip('"') for x in l[l.index('(') + 1:l.index(')')].split(',')]
+        if l.startswith('StartHandle'):
+            return {'a': 'handle', 's': args[0], 'k': int(args[1])}
+        if l.startswith('CancelHandle'):
+            return {'a': 'cancel', 's': args[0]}
+        return {'a': 'next' if l.startswith('StartNext') else 'close', 's': args[0]}
 
     # enumerate every sequence of call starts
     seqs = []
@@ -78,7 +89,8 @@ def topic_conformance(c, cfg, subs, buffered):
     p = os.path.join(d, 'in.json')
     json.dump({'subs': subs, 'buffered': buffered, 'sequences': [[label_act(l) for l in s] for s in maximal]}, open(p, 'w'))
     def execute(seq_list, mult):
-        json.dump({'subs': subs, 'buffered': buffered, 'sequences': [[label_act(l) for l in s] for s in seq_list]}, open(p, 'w'))
+        json.dump({'subs': subs, 'buffered': buffered, 'handlers': list(handlers),
+                   'sequences': [[label_act(l) for l in s] for s in seq_list]}, open(p, 'w'))
         return vlib.run_harness(['topic', p], timeout=1500, env_extra={'VERIF_SETTLE_MULT': str(mult)})['extra']['results']
 
     def judge(seq_labels, rr):
@@ -100,7 +112,7 @@ def topic_conformance(c, cfg, subs, buffered):
             cur = settle(nxt)
             o = rr['obs'][i]
             key = json.dumps({'inCall': o['inCall'] or [], 'inClose': o['inClose'] or [], 'lastRet': o['lastRet'], 'got': o['got']}, sort_keys=True)
-            cur = {n for n in cur if obs_of(nodes[n], subs) == key}
+            cur = {n for n in cur if obs_of(nodes[n], subs, handlers) == key}
             c.evaluations += 1
             if not cur:
                 wedge = 'close' if o['inClose'] else 'other'
@@ -130,6 +142,8 @@ def topic_conformance(c, cfg, subs, buffered):
 def run(c):
     thorough = c.tier == 'thorough'
     topic_conformance(c, 'Topic.cfg', ['A', 'B'], ['B'])
+    # Topic.Handle: a callback that fails on its k-th value, a cancelled context, next to a plain subscriber
+    topic_conformance(c, 'Topic_handle.cfg', ['A', 'H'], [], handlers=['H'])
     if thorough:
         topic_conformance(c, 'Topic3.cfg', ['A', 'B', 'C'], ['B'])
     # the code as it was: the plain blocking send wedges (documentation of finding F5; must be a violation of the model)
